@@ -33,7 +33,7 @@ VARIABLES dir,     \* Names -> "absent" | "v1" | "v2"   (present with metadata v
 cvars == <<dir, hist, clock, T, file, pc, mem, req, started, out, wpos>>
 
 Versions == {"absent", "v1", "v2"}
-Protos   == {"G", "GP", "H"}          \* Gopher, Gopher+ (+ form), HTTP
+Protos   == {"G", "GP", "GD", "H"}    \* Gopher, Gopher+ (+ form), Gopher+ ($ form: attribute listing), HTTP
 
 NoFile == [exists |-> FALSE, mtime |-> 0, chunks |-> <<>>, zero |-> FALSE]
 NoOut  == [src |-> "none", d |-> [n \in Names |-> "absent"], leak |-> FALSE, at |-> 0]
@@ -159,7 +159,7 @@ SaveWrite(w) ==
 Render(w) ==
     /\ pc[w] = "render"
     /\ out' = [out EXCEPT ![w] = [src |-> out[w].src, d |-> mem[w].d, leak |-> mem[w].leak, at |-> clock]]
-    /\ mem' = [mem EXCEPT ![w].leak = (mem[w].leak \/ req[w] = "GP")]
+    /\ mem' = [mem EXCEPT ![w].leak = (mem[w].leak \/ req[w] \in {"GP", "GD"})]
     /\ pc' = [pc EXCEPT ![w] = "done"]
     /\ UNCHANGED <<dir, hist, clock, T, file, req, started, wpos>>
 
